@@ -170,7 +170,7 @@ def run(ctx):
         return 'None' if not isinstance(x, str) or x == '' else '(Some %s)' % g_str(x)
     body = ';\n'.join('(%s, %s, %s, %s)' % (g_list([ol(e) for e in envs]), g_str(bundled), g_list([g_str(reloc), g_str(bundled)]),
                                            g_list([ol(a) for a in ans])) for envs, ans in rows)
-    ok, out = vlib.run_cases_file('c14_datadir', HEADER + 'Definition cases := [\n%s\n].\nFixpoint mm (i : nat) (l : list (list (option str) * str * list str * list (option str))) : list nat :=\n'
+    ok, out = vlib.run_cases_file('c14_datadir', HEADER + 'Definition cases : list (list (option str) * str * list str * list (option str)) := [\n%s\n].\nFixpoint mm (i : nat) (l : list (list (option str) * str * list str * list (option str))) : list nat :=\n'
                                   '  match l with [] => [] | c :: r => if ok c then mm (S i) r else i :: mm (S i) r end.\nEval vm_compute in mm 0 cases.\n' % body)
     val = vlib.coq_eval_value(out) if ok else None
     nbad = 0
